@@ -40,7 +40,7 @@ fn to_msg(e: &Ev) -> DltMessage {
             &[
                 (DLT_TYPE_INFO_STRG, s(b"FLST\0")),
                 (U32, serial.to_le_bytes().to_vec()),
-                (DLT_TYPE_INFO_STRG, s(b"dir/f.bin\0")),
+                (DLT_TYPE_INFO_STRG, format!("dir/f{}.bin\0", 99 - (*serial % 100)).into_bytes()), // names sort opposite to the serials
                 (U32, size.to_le_bytes().to_vec()),
                 (DLT_TYPE_INFO_STRG, s(b"date\0")),
                 (U32, nr.to_le_bytes().to_vec()),
@@ -97,13 +97,28 @@ fn run(case: &str) -> String {
     let dir = tempfile::tempdir().unwrap();
     let st = p.state();
     let st = st.read().unwrap();
-    let items: Vec<serde_json::Value> = st.value["treeItems"].as_array().unwrap().iter().skip(1).cloned().collect();
+    let all_items = st.value["treeItems"].as_array().unwrap();
+    let items: Vec<serde_json::Value> = all_items.iter().skip(1).cloned().collect();
+    // the children of the first node list the same transfers sorted by name
+    let sorted: Vec<serde_json::Value> = all_items.first().and_then(|n| n["children"].as_array().cloned()).unwrap_or_default();
+    let save_via = |it: &serde_json::Value, tag: &str| -> Option<Vec<u8>> {
+        // save exactly like the UI does: with the command context the item itself carries
+        let ctx = it["cmdCtx"].as_object()?;
+        let path = dir.path().join(tag);
+        let _ = std::fs::remove_file(&path);
+        let ok = (st.apply_command.unwrap())(&st.internal_data, "save", Some(json!({"saveAs": path.to_str().unwrap()}).as_object().unwrap()), Some(ctx));
+        if ok {
+            std::fs::read(&path).ok()
+        } else {
+            None
+        }
+    };
     let mut outs = vec![];
     for (i, it) in items.iter().enumerate() {
         let label = it["label"].as_str().unwrap_or("");
         let tip = it["tooltip"].as_str().unwrap_or("");
         let serial: u32 = tip.split("serial #").nth(1).and_then(|x| x.split(',').next()).and_then(|x| x.parse().ok()).unwrap_or(0);
-        let stc = if label.starts_with("Incomplete file transfer '") {
+        let mut stc = if label.starts_with("Incomplete file transfer '") {
             "S"
         } else if label.starts_with('\'') {
             "C"
@@ -111,20 +126,23 @@ fn run(case: &str) -> String {
             "M"
         } else {
             "I"
-        };
+        }
+        .to_string();
         let (len, h) = if stc == "C" {
-            let path = dir.path().join(format!("f{}", i));
-            let ok = (st.apply_command.unwrap())(
-                &st.internal_data,
-                "save",
-                Some(json!({"saveAs": path.to_str().unwrap()}).as_object().unwrap()),
-                Some(json!({"save":{"idx":i}}).as_object().unwrap()),
-            );
-            if ok {
-                let d = std::fs::read(&path).unwrap();
-                (d.len(), hash(&d))
-            } else {
+            let d = save_via(it, &format!("f{}", i)).unwrap_or_default();
+            // the same transfer saved through its entry in the sorted-by-name list must give the same bytes
+            for (j, c) in sorted.iter().enumerate() {
+                if c["tooltip"] == it["tooltip"] && c["label"] == it["label"] {
+                    let d2 = save_via(c, &format!("s{}", j)).unwrap_or_default();
+                    if d2 != d && sorted.iter().filter(|x| x["tooltip"] == it["tooltip"] && x["label"] == it["label"]).count() == 1 {
+                        stc = "C!sorted-entry-saves-other-content".to_string();
+                    }
+                }
+            }
+            if d.is_empty() {
                 (0, 0)
+            } else {
+                (d.len(), hash(&d))
             }
         } else {
             (0, 0)
